@@ -47,6 +47,13 @@ template <class T> using B_ = xsimd::batch<T, A>;
 template <class T> using M_ = xsimd::batch_bool<T, A>;
 template <class T> using R_ = typename xsimd::batch<T, A>::register_type;
 template <class T> using Q_ = typename xsimd::batch_bool<T, A>::register_type;
+extern "C" {
+R_<int8_t> ext_f_i8(R_<int8_t>, R_<int8_t>) noexcept; R_<uint8_t> ext_f_u8(R_<uint8_t>, R_<uint8_t>) noexcept;
+R_<int16_t> ext_f_i16(R_<int16_t>, R_<int16_t>) noexcept; R_<uint16_t> ext_f_u16(R_<uint16_t>, R_<uint16_t>) noexcept;
+R_<int32_t> ext_f_i32(R_<int32_t>, R_<int32_t>) noexcept; R_<uint32_t> ext_f_u32(R_<uint32_t>, R_<uint32_t>) noexcept;
+R_<int64_t> ext_f_i64(R_<int64_t>, R_<int64_t>) noexcept; R_<uint64_t> ext_f_u64(R_<uint64_t>, R_<uint64_t>) noexcept;
+R_<float> ext_f_f32(R_<float>, R_<float>) noexcept; R_<double> ext_f_f64(R_<double>, R_<double>) noexcept;
+}
 '''
 
 
